@@ -19,7 +19,7 @@ from fractions import Fraction
 VERIF = os.path.dirname(os.path.dirname(os.path.abspath(__file__)))
 LEAN_DIR = os.path.join(VERIF, "lean")
 REPO = os.environ.get("PANDORA_REPO", "/repo")
-EVIDENCE_DIR = os.path.join(VERIF, "evidence")
+EVIDENCE_DIR = os.environ.get("VERIF_EVIDENCE_DIR") or os.path.join(VERIF, "evidence")  # override: measurement runs
 REPLAY_DIR = os.path.join(EVIDENCE_DIR, "replay")
 CORPUS_DIR = os.path.join(VERIF, "corpus")
 KNOWN_FINDINGS = os.path.join(VERIF, "known_findings.json")
